@@ -10,6 +10,7 @@ a-cache   anything cached from the degree-dependent pipeline is keyed on / inval
 
 a-cache (round 3)  keys of the centre-manifold service contain every parameter whole (no rounding);  a-slots: partial and full series keep their own slot
 d (round 3)  the restriction leaves its INPUT polynomial untouched (the earlier formulation compared the input with itself after the call: vacuous, repaired)
+c-gamma (round 5)  C04.c solver exits re-filed
 """
 from __future__ import annotations
 
@@ -62,6 +63,10 @@ def run(tier):
     # the public facade binds every argument to the service parameter it is meant for (nominal swap rule, rules/common.py)
     from . import common as _common
     _common.facade_bindings(chk, "C09.a-facade", ['hiten.system.center', 'hiten.system.maps.center'], floor=15)
+    # the synodic state is built around gamma: the bracketed solver exits only on an exact zero or its x-tolerance (the quintics are flat for small mass
+    # ratios; an exit on |f| <= tol leaves the expansion point off the equilibrium and the energy discrepancy linear in r) - C04.c re-filed
+    from . import c04 as _c04
+    _c04._solver_exits(Relabel(chk, {"C04.c": "C09.c-gamma"}))
     return chk
 
 
